@@ -83,6 +83,13 @@ Fixpoint all_ok {A} (l : list (result A)) : result (list A) :=
   | r :: l' => x <- r ;; xs <- all_ok l' ;; Ok (x :: xs)
   end.
 
+(* InfixExpression._operand: a comparison / membership operand keeps its parentheses *)
+Definition wrap_operand (e : fexpr) (x : ustr) : ustr :=
+  match e with
+  | FInfix _ o _ => if is_logical o then x else 40%N :: x ++ [41%N]
+  | _ => x
+  end.
+
 Section Serialize.
   Variable E : env.
 
@@ -101,8 +108,8 @@ Section Serialize.
     | FNot r => x <- expr_text r ;; Ok (33%N :: x)
     | FInfix l o r =>
         a <- expr_text l ;; b <- expr_text r ;;
-        let body := a ++ sp :: binop_text o ++ sp :: b in
-        Ok (if is_logical o then 40%N :: body ++ [41%N] else body)
+        Ok (if is_logical o then 40%N :: (a ++ sp :: binop_text o ++ sp :: b) ++ [41%N]
+            else wrap_operand l a ++ sp :: binop_text o ++ sp :: wrap_operand r b)
     | FSelf p => x <- segs_text p ;; Ok (e_self E ++ x)
     | FRoot fake p => x <- segs_text p ;; Ok ((if fake then e_fake_root E else e_root E) ++ x)
     | FCtx p => x <- segs_text p ;; Ok (e_filter_context E ++ x)
@@ -131,7 +138,7 @@ Section Serialize.
         Ok (if Nat.ltb 7 parent then 40%N :: x ++ [41%N] else x)
     | FInfix l o r =>
         a <- expr_text l ;; b <- expr_text r ;;
-        let x := a ++ sp :: binop_text o ++ sp :: b in
+        let x := wrap_operand l a ++ sp :: binop_text o ++ sp :: wrap_operand r b in
         Ok (if Nat.leb 7 parent then 40%N :: x ++ [41%N] else x)
     (* everything else is str(expression): the same text as expr_text, written out so that the
        recursion stays structural *)
